@@ -157,7 +157,20 @@ func TraceLines(s *Scenario) [][]byte {
 		for _, e := range r.Errs {
 			errs = append(errs, map[string]any{"p": e.P, "c": e.C})
 		}
-		add(map[string]any{"e": "Respond", "data": r.Data, "errs": errs, "hasnext": r.HasNext, "path": r.Path, "label": r.Label})
+		pseq := []string{}
+		if r.Path != "" {
+			pseq = strings.Split(r.Path, ".")
+		}
+		add(map[string]any{"e": "Respond", "data": r.Data, "errs": errs, "hasnext": r.HasNext, "path": r.Path, "pseq": pseq, "label": r.Label})
+	}
+	return out
+}
+
+// DeferTraceLines is TraceLines plus the end-of-payloads marker GqlDeferTrace expects.
+func DeferTraceLines(s *Scenario) [][]byte {
+	out := TraceLines(s)
+	if s.Result != nil {
+		out = append(out, []byte(`{"e":"Done"}`))
 	}
 	return out
 }
@@ -180,10 +193,46 @@ func ValidateBatch(c *Check, module, cfg string, schemaRaw []byte, scs []*Scenar
 
 // ValidateBatchWith is ValidateBatch with explicit TLC options (e.g. CfgEdit for constants).
 func ValidateBatchWith(c *Check, base TLCOpts, schemaRaw []byte, scs []*Scenario, lines func(*Scenario) [][]byte, scratch string) ([]Rejection, error) {
+	// chunks are validated by parallel TLC processes (each -workers 1)
+	const chunk = 160
+	type res struct {
+		rej []Rejection
+		err error
+	}
+	n := (len(scs) + chunk - 1) / chunk
+	out := make([]res, n)
+	sem := make(chan struct{}, 6)
+	var wg sync.WaitGroup
+	for i := 0; i < n; i++ {
+		lo, hi := i*chunk, (i+1)*chunk
+		if hi > len(scs) {
+			hi = len(scs)
+		}
+		wg.Add(1)
+		go func(i int, part []*Scenario) {
+			defer wg.Done()
+			sem <- struct{}{}
+			defer func() { <-sem }()
+			r, err := validateChunk(c, base, schemaRaw, part, lines, filepath.Join(scratch, fmt.Sprintf("c%d", i)))
+			out[i] = res{r, err}
+		}(i, scs[lo:hi])
+	}
+	wg.Wait()
+	var rej []Rejection
+	for _, r := range out {
+		if r.err != nil {
+			return rej, r.err
+		}
+		rej = append(rej, r.rej...)
+	}
+	return rej, nil
+}
+
+func validateChunk(c *Check, base TLCOpts, schemaRaw []byte, scs []*Scenario, lines func(*Scenario) [][]byte, scratch string) ([]Rejection, error) {
 	module := base.Module
 	var rej []Rejection
 	remaining := scs
-	for round := 0; round < 12 && len(remaining) > 0; round++ {
+	for round := 0; round < 80 && len(remaining) > 0; round++ {
 		var buf bytes.Buffer
 		owner := []int{} // line -> index in remaining
 		var all []string
